@@ -126,7 +126,7 @@ pub fn schedule(
     cuts.dedup();
     let mut evs = Vec::with_capacity(cuts.len() * 2 + 3);
     let mut prev = 0usize;
-    let mut emit = |n: usize, evs: &mut Vec<Ev>, rng: &mut Rng, counts: &mut FaultCounts| {
+    let emit = |n: usize, evs: &mut Vec<Ev>, rng: &mut Rng, counts: &mut FaultCounts| {
         if cfg.eintr_pct > 0 && rng.below(100) < cfg.eintr_pct {
             evs.push(Ev::Eintr);
             counts.eintr += 1;
